@@ -38,6 +38,8 @@ MEM_PATHS = ["new", "item", "field", "global", "api_global"]
 ARG_PATHS = ["abi_arg", "api_arg"]
 PATHS = MEM_PATHS + ARG_PATHS + ["callback"]
 KS = [0, 7, 8, 15, 16, 31, 32, 63, 64, 100]
+# pyobj constructor of C03/Store.v: 0 PInt, 1 PIntLike, 2 PFloat, 3 PNoInt
+OBJ_CODE = {None: 0, "intlike": 1, "float": 2, "indexonly": 3, "none": 3, "str": 3}
 
 
 def boundary_values():
@@ -121,6 +123,17 @@ def generate(ctx):
                 if path == "callback":
                     c["E"] = "1" if t["name"] == "_Bool" else "42"
                 cases.append(c)
+    # objects that are not ints (outside the property's quantifier; ties the TypeError / __int__ branches of
+    # the model): floats, an object with __int__, one with only __index__, None, str
+    for t in types:
+        for path in ("new", "item", "field", "abi_arg", "api_arg"):
+            for obj, vals in (("float", [0, 1, -1, 10 ** 30]), ("intlike", [0, 1, -1, 127, 128, 255, 256, 2 ** 31, 2 ** 63,
+                                                                         2 ** 64, -2 ** 63 - 1]),
+                              ("indexonly", [1]), ("none", [0]), ("str", [1])):
+                if obj == "none" and path == "new":
+                    continue        # ffi.new(T, None) means "no initializer", not a store of None
+                for v in vals:
+                    cases.append(dict(tname=t["name"], path=path, v=str(v), obj=obj))
     return cases
 
 
@@ -152,7 +165,7 @@ def evaluate(ctx, cases):
     s = ctx.scratch()
     payload = dict(types=types, enums_cdef=ENUMS_CDEF, so=so,
                    api=any(c["path"].startswith("api") for c in cases),
-                   cases=[dict(t=kof[c["tname"]], path=c["path"], v=c["v"], E=c.get("E")) for c in cases])
+                   cases=[dict(t=kof[c["tname"]], path=c["path"], v=c["v"], E=c.get("E"), obj=c.get("obj")) for c in cases])
     out, p = s.run_worker("c03_worker.py", payload, timeout=1500)
     if out is None:
         ctx.violation(cases[0], "C03 worker failed (crash while storing integers?): rc=%s %s"
@@ -172,7 +185,10 @@ def evaluate(ctx, cases):
         size, signed = facts[k]
         isbool = c["tname"] == "_Bool"
         v = int(c["v"])
-        ok_expected = in_range(size, signed, isbool, v)
+        obj = c.get("obj")
+        # floats and objects without __int__ must be refused with TypeError; an object with __int__ is its int
+        type_error = obj in ("float", "indexonly", "none", "str")
+        ok_expected = (not type_error) and in_range(size, signed, isbool, v)
         path = c["path"]
         ctx.hist("path", path)
         ctx.hist("size_signed", "%d%s" % (size, "s" if signed else "u"))
@@ -219,9 +235,10 @@ def evaluate(ctx, cases):
                 elif path in ("global", "api_global") and r["after"] != enc:
                     bad = "global store: bytes %s -> %s" % (r["before"], r["after"])
             else:
-                if r["exc"] != "OverflowError":
-                    bad = "rejected store of %d into %s via %s raises %s, not OverflowError" % (
-                        v, c["tname"], path, r["exc"])
+                if r["exc"] != ("TypeError" if type_error else "OverflowError"):
+                    bad = "rejected store of %s%d into %s via %s raises %s, not %s" % (
+                        (obj + " ") if obj else "", v, c["tname"], path, r["exc"],
+                        "TypeError" if type_error else "OverflowError")
                 elif r["before"] is not None and r["before"] != r["after"]:
                     bad = "rejected store changed memory: %s -> %s" % (r["before"], r["after"])
         if bad:
@@ -250,10 +267,10 @@ def evaluate(ctx, cases):
             else:
                 old = bytes.fromhex(r["before"])
                 newb = bytes.fromhex(r["after"])
-            key = (size, signed, isbool, v, old, status, newb)
+            key = (size, signed, isbool, OBJ_CODE[obj], v, old, status, newb)
             store_cases.setdefault(key, c)
         elif path == "api_arg":
-            key = (size, signed, isbool, v, status, int(r["rb"]) if r["ok"] else 0)
+            key = (size, signed, isbool, OBJ_CODE[obj], v, status, int(r["rb"]) if r["ok"] else 0)
             api_cases.setdefault(key, c)
         elif path == "callback":
             key = (size, signed, isbool, v, int(c["E"]), 0 if r["ok"] else 1, int(r["rb"]))
@@ -265,14 +282,14 @@ def evaluate(ctx, cases):
         return cz(int.from_bytes(bs, "little"))
     groups = [
         ("C03.Model.convert_from_object_int vs convert_from_object (memory paths, ABI argument)",
-         "fun c => match c with (sz, sg, bl, v, old) => store_obs_z sz sg bl v old end",
+         "fun c => match c with (sz, sg, bl, ok, v, old) => store_obj_obs_z sz sg bl ok v old end",
          "pair_eqb Z.eqb Z.eqb",
-         [(cpair(cz(k[0]), cbool(k[1]), cbool(k[2]), cz(k[3]), zl(k[4])), cpair(cz(k[5]), zl(k[6])))
+         [(cpair(cz(k[0]), cbool(k[1]), cbool(k[2]), cz(k[3]), cz(k[4]), zl(k[5])), cpair(cz(k[6]), zl(k[7])))
           for k in store_cases], list(store_cases.values())),
         ("C03.Model.api_arg vs _cffi_to_c_int/_cffi_to_c__Bool (API-mode argument)",
-         "fun c => match c with (sz, sg, bl, v) => api_obs sz sg bl v end",
+         "fun c => match c with (sz, sg, bl, ok, v) => api_obj_obs sz sg bl ok v end",
          "pair_eqb Z.eqb Z.eqb",
-         [(cpair(cz(k[0]), cbool(k[1]), cbool(k[2]), cz(k[3])), cpair(cz(k[4]), cz(k[5]))) for k in api_cases],
+         [(cpair(cz(k[0]), cbool(k[1]), cbool(k[2]), cz(k[3]), cz(k[4])), cpair(cz(k[5]), cz(k[6]))) for k in api_cases],
          list(api_cases.values())),
         ("C03.Model.callback_received vs general_invoke_callback (callback result)",
          "fun c => match c with (sz, sg, bl, v, e) => callback_obs sz sg bl v e end",
@@ -322,9 +339,10 @@ MANIFEST = dict(
          "convert_from_object accepts iff v is in range, writes exactly v's encoding, and otherwise raises OverflowError "
          "leaving the target unchanged; the API-mode converters, whose range tests are regenerated from the macro text "
          "and evaluated with C semantics (no UB), deliver exactly v or OverflowError; all paths agree; a callback "
-         "returning an out-of-range value makes the caller receive the error value. Hand model tied by running "
+         "returning an out-of-range value makes the caller receive the error value; a store at an offset of a larger "
+         "object changes nothing outside its ct_size bytes; floats and objects without __int__ raise TypeError. Hand model tied by running "
          "types x 8 store paths x boundary/random values on the scratch build on every run.",
     note="Trusted: Coq kernel; hand model C03/Model.v (differential tie); translator c03_regen/c03_cexpr; C03/CExpr.v "
-         "semantics; CPython PyLong_As*; gcc; libffi for the ABI paths. Non-int objects (__int__, floats) are outside "
-         "the model. Theorems closed under the global context.",
+         "semantics; CPython PyLong_As*; gcc; libffi for the ABI paths. Floats / __int__ / no-__int__ objects are modelled (C03_store_obj_exact) and exercised, though "
+         "outside the property's quantifier. Theorems closed under the global context.",
     design_ref="DESIGN.md §4 C03")
